@@ -11,6 +11,7 @@ from props.base import Context  # noqa: F401
 
 PID = 'C07'
 TIE_MODULES = ['DiffxVerif.Tie.Sections']
+NEEDS = ['sections']
 ASSUMPTIONS = [
     'io.BytesIO.read(n) returning fewer than n bytes at end of data is modelled by List.take',
     'D12 classifier: the last yielded record was produced by a content read that obtained fewer bytes than the declared length (observed with an instrumented stream)',
@@ -81,7 +82,7 @@ class Spec(object):
 
     def request(self, case):
         data, k = case
-        return 'read %d %s' % (int(self.tables['chunk']), common.enc_bytes(data[:k]))
+        return 'read %d %s' % ((int(self.tables['chunk']) or 96), common.enc_bytes(data[:k]))
 
     def impl(self, case):
         data, k = case
